@@ -123,6 +123,20 @@ class Bitwise(Contract):
 
 
 @contract
+class BitwiseWide(Bitwise):
+    """The bitwise contract restricted to words of 64 bits and more (scalars and arrays): C18 claims the bitwise
+    operators exact at these widths."""
+    name = 'objects:Fxp.__invert__/__and__/__or__/__xor__[wide]'
+    primary = ['C18']
+    props = {'*': ['C18']}
+
+    def configs(self, tier):
+        for c in Bitwise.configs(self, tier):
+            if c['x'][1] >= 64:
+                yield c
+
+
+@contract
 class BitwiseLaws(Contract):
     """Lemmas over the bitwise contracts, run through the real operators: ~~x == x, De Morgan."""
     name = 'lemma:C13.laws'
